@@ -1,6 +1,6 @@
 (* C04 - Statistics belong only to the function that actually ran.  Statements only. *)
 From Coq Require Import List ZArith Bool.
-From LP Require Import Trace.ZMap Trace.Concrete Trace.Abstract Trace.AbstractFacts Trace.Main Trace.Witness.
+From LP Require Import Trace.GenRun Trace.ZMap Trace.Concrete Trace.Abstract Trace.AbstractFacts Trace.Main Trace.Witness.
 Import ListNotations.
 Open Scope Z_scope.
 
@@ -44,3 +44,10 @@ Theorem C04_padding_collision_refuted :
   /\ reported_hits (run pad_codes 0 0 pad_ops) 5 2 = 1
   /\ executed pad_codes 0 pad_ops 5 2 = 0.
 Proof. exact padding_collision. Qed.
+
+(* The tie to the source: the machine regenerated from line_profiler/_line_profiler.pyx on this run (Gen/TraceCore.v:
+   the trace callback translated statement by statement, compute_line_hash, enable/disable, the registration loop and
+   get_stats read off the source) computes exactly `run`, the model the theorems above are about. *)
+Theorem C04_model_is_generated_core :
+  forall codes tick start ops, gen_run codes tick start ops = run codes tick start ops.
+Proof. exact gen_run_eq. Qed.
